@@ -29,6 +29,7 @@ class C05(Harness):
 
     def bounds(self, tier):
         return {'program_length': 3 if tier == 'quick' else 4, 'max_injected_watcher_faults': 1 if tier == 'quick' else 2,
+                'two_faults_up_to_length': 0 if tier == 'quick' else 3,
                 'nesting': self.MAXNEST, 'configs': 3}
 
     def configs(self, tier):
@@ -268,6 +269,8 @@ class C05(Harness):
     # ---------------------------------------------------------------- engine interface
     def execute(self, cfg, history):
         F = cfg.get('F', 1)
+        if F > 1 and len(history) > 3:
+            F = 1            # two simultaneous watcher faults are enumerated for programs of length <= 3 only
         n = 0
         vs = []
         hits = {'fault-free': 0, 'watcher-fault-fired': 0, 'token-raised': 0, 'probe': 0}
